@@ -1,3 +1,6 @@
 import CLModel.Rx.Basic
 import CLModel.Gen.Regexes
 import CLModel.Gen.Tables
+import CLModel.Props.C01
+import CLModel.Props.C20
+import CLModel.Compare.Merge
